@@ -413,10 +413,14 @@ def check_null(ck, prog):
 
 def check_distvalid(ck, prog):
     """dict_is_distance_valid() is the only thing that keeps a match distance inside the decoded history: it has to be
-    exactly `dict->full > distance`.  Any weakening (an extra disjunct such as `has_wrapped || ...`) lets a crafted stream
-    read outside what was decoded -- into uninitialised parts of the dictionary or, with a distance beyond the buffer,
-    outside the allocation."""
-    ck.rule("C04-DISTVALID", "dict_is_distance_valid() is the single comparison dict->full > distance")
+    equivalent to `dict->full > distance`.  Any weakening (an extra disjunct such as `has_wrapped || ...`) lets a crafted
+    stream read outside what was decoded -- into uninitialised parts of the dictionary or, with a distance beyond the
+    buffer, outside the allocation.  Decided by evaluating the function's CFG over a small domain for every member and
+    parameter it mentions (the function is a comparison: it can only depend on the order of its inputs)."""
+    import itertools
+    from sa import machine
+    ck.rule("C04-DISTVALID", "dict_is_distance_valid() is equivalent to dict->full > distance (finite-domain evaluation "
+            "over every member and parameter the function reads)")
     f = None
     for cand in prog.functions.get("dict_is_distance_valid", []):
         if cand.blocks:
@@ -424,24 +428,49 @@ def check_distvalid(ck, prog):
     if f is None:
         raise AnalysisBroken("dict_is_distance_valid not found")
     ck.saw_function(f)
-    rets = [ex.deref(e) for b, i, e in f.iter_elems() if ex.deref(e).get("k") == "ret" and ex.deref(e).get("e") is not None]
-    conds = [b.term["cond"] for b in f.blocks.values() if b.term and "cond" in b.term]
-    ok = False
-    shown = "?"
-    if len(rets) == 1 and not conds:
-        r = ex.strip(rets[0]["e"])
-        shown = ex.show(r)
-        if r.get("k") == "bin" and r["op"] in (">", "<"):
-            a, b_ = ex.show(r["l"]), ex.show(r["r"])
-            ok = (r["op"] == ">" and a == "dict->full" and b_ == "distance") or \
-                 (r["op"] == "<" and a == "distance" and b_ == "dict->full")
-    else:
-        shown = " / ".join(ex.show(c) for c in conds) or shown
-    ck.ob("C04-DISTVALID", "dict_is_distance_valid", ok, common.where(f),
-          "dict_is_distance_valid: `%s`" % shown if ok else
-          "dict_is_distance_valid() is `%s` instead of the single comparison `dict->full > distance`: match distances beyond "
-          "the decoded history are accepted, a crafted stream copies uninitialised or out-of-buffer memory into the output"
-          % shown, key="DISTVALID:dict_is_distance_valid")
+    flds, vars_ = set(), set()
+    nodes = [e for b, i, e in f.iter_elems()] + [b.term["cond"] for b in f.blocks.values() if b.term and "cond" in b.term]
+    for e in nodes:
+        for x in ex.walk(e):
+            if x.get("k") == "mem":
+                flds.add((x.get("rec"), x["f"]))
+            if x.get("k") == "var" and x.get("s") != "f":
+                vars_.add(x["n"])
+    params = [p["n"] for p in f.params if p["n"] in vars_ and not p.get("prec")]
+    if ("lzma_dict", "full") not in flds or "distance" not in params:
+        ck.ob("C04-DISTVALID", "dict_is_distance_valid", False, common.where(f),
+              "dict_is_distance_valid() does not read dict->full and distance (reads %s, %s): it cannot be the comparison "
+              "dict->full > distance" % (sorted(x[1] for x in flds), params), key="DISTVALID:dict_is_distance_valid")
+        return
+    DOM = (0, 1, 2, 5)
+    keys = [fd.Key("field", fl, rec=rec, domain=DOM, label=fl) for rec, fl in sorted(flds)]
+    keys += [fd.Key("var", p, domain=DOM, label=p) for p in params]
+    keys.append(fd.Key("retval", "$ret", label="$ret"))
+    labels = [k.label for k in keys[:-1]]
+    if len(labels) > 6:
+        raise AnalysisBroken("dict_is_distance_valid reads %d inputs: too many for enumeration" % len(labels))
+    cg = common.callgraph(prog)
+    bad = None
+    ncomb = 0
+    for vals in itertools.product(DOM, repeat=len(labels)):
+        ncomb += 1
+        g = fd.FD(prog, f, keys, cg=cg, split=300)
+        st = dict((l, [v]) for l, v in zip(labels, vals))
+        st["$ret"] = [machine.NO_RETURN_YET]
+        g.run([g.make_state(**st)])
+        env = dict(zip(labels, vals))
+        want = 1 if env["full"] > env["distance"] else 0
+        for nd in g.nodes:
+            if nd[0] == f.exit:
+                rv = g.get(nd[1], "$ret")
+                if rv is None or set(rv) != {want}:
+                    bad = bad or (env, sorted(rv) if rv is not None else "unknown")
+    ck.ob("C04-DISTVALID", "dict_is_distance_valid", bad is None, common.where(f),
+          "dict_is_distance_valid() == (dict->full > distance) for all %d combinations of %s over %s" % (ncomb, labels, DOM)
+          if bad is None else
+          "dict_is_distance_valid() returns %s for %s where dict->full > distance is %s: match distances beyond the decoded "
+          "history are accepted (a crafted stream copies uninitialised or out-of-buffer memory into the output) or valid "
+          "ones rejected" % (bad[1], bad[0], bad[0]["full"] > bad[0]["distance"]), key="DISTVALID:dict_is_distance_valid")
 
 
 def check_allocsz(ck, prog):
